@@ -619,4 +619,217 @@ theorem statusAllowedB_mono {a b : Bool} (hab : a = true → b = true) (op : Op)
   | true => rw [hab rfl]; exact h
   | false => cases hu : op.userAdmin <;> simp [hu] at h ⊢
 
+/-! ### overlapping calls: the invariant of the two-phase model `kstep` -/
+
+/-- what a pending call knows about the value its `Get` returned -/
+def StaleGood (now : Nat) (cs : List Consult) (u : Name) (stale : Bool) (origin : Option Nat) : Prop :=
+  match origin with
+  | none => stale = false
+  | some t' => t' ≤ now ∧ (⟨t', u, some stale⟩ : Consult) ∈ cs
+
+theorem StaleGood.mono {now : Nat} {cs : List Consult} {u : Name} {b : Bool} {o : Option Nat} (c : Consult)
+    (h : StaleGood now cs u b o) : StaleGood now (c :: cs) u b o := by
+  unfold StaleGood at *
+  cases o with
+  | none => exact h
+  | some t' => exact ⟨h.1, List.mem_cons_of_mem _ h.2⟩
+
+theorem StaleGood.later {now now' : Nat} {cs : List Consult} {u : Name} {b : Bool} {o : Option Nat}
+    (hle : now ≤ now') (h : StaleGood now cs u b o) : StaleGood now' cs u b o := by
+  unfold StaleGood at *
+  cases o with
+  | none => exact h
+  | some t' => exact ⟨Nat.le_trans h.1 hle, h.2⟩
+
+theorem staleGood_of_get {maxDur : Nat} {s : CState} (hs : Inv maxDur s) (u : Name) :
+    StaleGood s.now s.consults u (Cache.get maxDur s.cache s.now u).1 (s.cache.cachedOrigin u) := by
+  unfold Cache.get Cache.cachedOrigin StaleGood
+  cases hc : s.cache u with
+  | none => rfl
+  | some e =>
+    have he := hs.entries u e hc
+    simp only []
+    cases ho : e.origin with
+    | none =>
+      have h2 := he.2
+      rw [ho] at h2
+      exact h2.1
+    | some t' =>
+      have h2 := he.2
+      rw [ho] at h2
+      exact ⟨Nat.le_trans h2.1 he.1, h2.2.1⟩
+
+theorem inv_finish {maxDur : Nat} (hmax : 0 < maxDur) {s : CState} (hs : Inv maxDur s) (u : Name)
+    (stale : Bool) (origin : Option Nat) (hst : StaleGood s.now s.consults u stale origin)
+    (dir : Option Bool) : Inv maxDur (finishStep s u stale origin dir) := by
+  unfold finishStep
+  cases dir with
+  | some v =>
+    refine ⟨?_, ?_⟩
+    · intro x e hx
+      simp only [Cache.upd] at hx
+      split at hx
+      · rename_i hxu
+        injection hx with hx
+        subst hx; subst hxu
+        exact ⟨Nat.le_refl _, Nat.le_refl _, List.mem_cons_self, Or.inl rfl⟩
+      · exact (hs.entries x e hx).mono _
+    · intro r hr
+      simp only [List.mem_cons] at hr
+      rcases hr with hr | hr
+      · subst hr
+        unfold GoodRet
+        refine ⟨Nat.le_refl _, List.mem_cons_self, Or.inl ?_⟩
+        show s.now - s.now < maxDur
+        omega
+      · exact (hs.rets r hr).mono _
+  | none =>
+    have key : GoodEntry s.now (⟨s.now, u, none⟩ :: s.consults) u ⟨stale, s.now, origin⟩ := by
+      refine ⟨Nat.le_refl _, ?_⟩
+      simp only []
+      unfold StaleGood at hst
+      cases origin with
+      | none => exact ⟨hst, List.mem_cons_self⟩
+      | some t' => exact ⟨hst.1, List.mem_cons_of_mem _ hst.2, Or.inr List.mem_cons_self⟩
+    refine ⟨?_, ?_⟩
+    · intro x e hx
+      simp only [Cache.upd] at hx
+      split at hx
+      · rename_i hxu
+        injection hx with hx
+        subst hx; subst hxu
+        exact key
+      · exact (hs.entries x e hx).mono _
+    · intro r hr
+      simp only [List.mem_cons] at hr
+      rcases hr with hr | hr
+      · subst hr
+        exact goodRet_of_hit (maxDur := maxDur) key (by show s.now - s.now < maxDur; omega)
+      · exact (hs.rets r hr).mono _
+
+theorem consults_finish (s : CState) (u : Name) (stale : Bool) (origin : Option Nat) (dir : Option Bool) :
+    (finishStep s u stale origin dir).consults = ⟨s.now, u, dir⟩ :: s.consults ∧
+    (finishStep s u stale origin dir).now = s.now ∧
+    (finishStep s u stale origin dir).offered = s.offered := by
+  unfold finishStep
+  cases dir <;> exact ⟨rfl, rfl, rfl⟩
+
+structure KInv (maxDur : Nat) (s : KState) : Prop where
+  inv : Inv maxDur s.c
+  pend : ∀ p, p ∈ s.pend → StaleGood s.c.now s.c.consults p.user p.stale p.staleOrigin
+  sub : SubOffered s.c
+
+theorem kinv_init (maxDur t0 : Nat) : KInv maxDur (KState.init t0) :=
+  ⟨inv_init maxDur t0, fun _ h => (by cases h), fun _ h => (by cases h)⟩
+
+theorem inv_offer {maxDur : Nat} {s : CState} (hs : Inv maxDur s) (u : Name) (dir : Option Bool) :
+    Inv maxDur (offer s u dir) := ⟨hs.entries, hs.rets⟩
+
+theorem sub_finish_offer {s : CState} (hs : SubOffered s) (u : Name) (stale : Bool) (origin : Option Nat)
+    (dir : Option Bool) : SubOffered (finishStep (offer s u dir) u stale origin dir) := by
+  obtain ⟨h1, _, h3⟩ := consults_finish (offer s u dir) u stale origin dir
+  intro c hc
+  rw [h1] at hc
+  rw [h3]
+  simp only [List.mem_cons] at hc
+  rcases hc with hc | hc
+  · subst hc; exact List.mem_cons_self
+  · exact List.mem_cons_of_mem _ (hs c hc)
+
+theorem kstep_begin (maxDur : Nat) (s : KState) (u : Name) (dir : Option Bool) (hold : Bool) :
+    kstep maxDur s (.begin u dir hold) =
+    if (Cache.get maxDur s.c.cache s.c.now u).2 then
+      { s with c := { offer s.c u dir with
+                      rets := ⟨s.c.now, u, (Cache.get maxDur s.c.cache s.c.now u).1, s.c.cache.cachedOrigin u⟩ :: s.c.rets },
+               next := s.next + 1 }
+    else if hold then
+      { s with c := offer s.c u dir,
+               pend := ⟨s.next, u, (Cache.get maxDur s.c.cache s.c.now u).1, s.c.cache.cachedOrigin u⟩ :: s.pend,
+               next := s.next + 1 }
+    else
+      { s with c := finishStep (offer s.c u dir) u (Cache.get maxDur s.c.cache s.c.now u).1 (s.c.cache.cachedOrigin u) dir,
+               next := s.next + 1 } := rfl
+
+theorem kstep_release (maxDur : Nat) (s : KState) (k : Nat) (dir : Option Bool) :
+    kstep maxDur s (.release k dir) =
+    match s.pend.find? (fun p => p.id == k) with
+    | none => s
+    | some p =>
+      { s with c := finishStep (offer s.c p.user dir) p.user p.stale p.staleOrigin dir,
+               pend := s.pend.filter (fun q => q.id != k) } := rfl
+
+theorem kinv_step {maxDur : Nat} (hmax : 0 < maxDur) {s : KState} (hs : KInv maxDur s) (ev : KEv) :
+    KInv maxDur (kstep maxDur s ev) := by
+  cases ev with
+  | advance d =>
+    exact ⟨⟨fun u e h => (hs.inv.entries u e h).later (Nat.le_add_right _ _), hs.inv.rets⟩,
+      fun p hp => (hs.pend p hp).later (Nat.le_add_right _ _), hs.sub⟩
+  | «begin» u dir hold =>
+    rw [kstep_begin]
+    split
+    · -- served from a valid entry
+      rename_i hvalid
+      refine ⟨⟨hs.inv.entries, ?_⟩, hs.pend, fun c hc => List.mem_cons_of_mem _ (hs.sub c hc)⟩
+      intro r hr
+      simp only [List.mem_cons] at hr
+      rcases hr with hr | hr
+      · subst hr
+        unfold Cache.get Cache.cachedOrigin at *
+        cases hc : s.c.cache u with
+        | none => rw [hc] at hvalid; cases hvalid
+        | some e =>
+          rw [hc] at hvalid
+          have hv : s.c.now - e.ts < maxDur := by simpa using hvalid
+          simp only []
+          exact goodRet_of_hit (hs.inv.entries u e hc) hv
+      · exact hs.inv.rets r hr
+    · split
+      · -- parked: nothing but the pending record and the offer
+        refine ⟨inv_offer hs.inv u dir, ?_, fun c hc => List.mem_cons_of_mem _ (hs.sub c hc)⟩
+        intro p hp
+        simp only [List.mem_cons] at hp
+        rcases hp with hp | hp
+        · subst hp; exact staleGood_of_get hs.inv u
+        · exact hs.pend p hp
+      · obtain ⟨h1, h2, _⟩ := consults_finish (offer s.c u dir) u (Cache.get maxDur s.c.cache s.c.now u).1
+          (s.c.cache.cachedOrigin u) dir
+        refine ⟨inv_finish hmax (inv_offer hs.inv u dir) u _ _ (staleGood_of_get hs.inv u) dir, ?_,
+          sub_finish_offer hs.sub u _ _ dir⟩
+        intro p hp
+        show StaleGood (finishStep (offer s.c u dir) u _ _ dir).now (finishStep (offer s.c u dir) u _ _ dir).consults _ _ _
+        rw [h1, h2]
+        exact (hs.pend p hp).mono _
+  | release k dir =>
+    rw [kstep_release]
+    split
+    · exact hs
+    · rename_i p hfind
+      have hp : p ∈ s.pend := List.mem_of_find?_eq_some hfind
+      obtain ⟨h1, h2, _⟩ := consults_finish (offer s.c p.user dir) p.user p.stale p.staleOrigin dir
+      refine ⟨inv_finish hmax (inv_offer hs.inv p.user dir) p.user _ _ (hs.pend p hp) dir, ?_,
+        sub_finish_offer hs.sub p.user _ _ dir⟩
+      intro q hq
+      have hq' : q ∈ s.pend := (List.mem_filter.mp hq).1
+      show StaleGood (finishStep (offer s.c p.user dir) p.user _ _ dir).now
+        (finishStep (offer s.c p.user dir) p.user _ _ dir).consults _ _ _
+      rw [h1, h2]
+      exact (hs.pend q hq').mono _
+
+theorem kinv_run {maxDur : Nat} (hmax : 0 < maxDur) (evs : List KEv) {s : KState}
+    (hs : KInv maxDur s) : KInv maxDur (krun maxDur s evs) := by
+  induction evs generalizing s with
+  | nil => exact hs
+  | cons ev rest ih => exact ih (kinv_step hmax hs ev)
+
+theorem kstep_sequential (maxDur : Nat) (s : KState) (u : Name) (dir : Option Bool) :
+    (kstep maxDur s (.begin u dir false)).c = cstep maxDur s.c (.call u dir) := by
+  rw [kstep_begin]
+  show _ = { isAdminUserStep maxDur s.c u dir with offered := ⟨s.c.now, u, dir⟩ :: s.c.offered }
+  unfold isAdminUserStep finishStep offer
+  by_cases h : (Cache.get maxDur s.c.cache s.c.now u).2 = true
+  · simp only [h, if_true]
+  · simp only [h, if_false, Bool.false_eq_true]
+    cases dir <;> rfl
+
+
 end KM.Admin
